@@ -193,6 +193,7 @@ func traceBackup(t *testing.T, o opts) {
 			}
 			cancel = pick(r, []int64{245017, 600011, 1200007})
 		}
+		offset := []int64{0, 17003, 45000, 59500, 30000, 1}[h%6]
 		emit("begin\t%d", h)
 		dir := filepath.Join(o.dir, fmt.Sprintf("b%d", h))
 		os.MkdirAll(dir, 0700)
@@ -211,7 +212,7 @@ func traceBackup(t *testing.T, o opts) {
 		for i, w := range writes {
 			wl[i] = fmt.Sprint(w)
 		}
-		head := fmt.Sprintf("backup\treopened=%s\twrites=%s\tscript=%s\tlatency=%d\tlat2=%d\trace=%d\tcancel=%d", b01(reopened), strings.Join(wl, ","), strings.Join(script, ","), latency, lat2, race, cancel)
+		head := fmt.Sprintf("backup\treopened=%s\twrites=%s\tscript=%s\tlatency=%d\tlat2=%d\trace=%d\tcancel=%d\toffset=%d", b01(reopened), strings.Join(wl, ","), strings.Join(script, ","), latency, lat2, race, cancel, offset)
 		go func() {
 			res := ""
 			synctest.Test(t, func(t *testing.T) {
@@ -219,6 +220,9 @@ func traceBackup(t *testing.T, o opts) {
 				if err != nil {
 					t.Fatal(err)
 				}
+				// the server does not start on a minute boundary of the wall clock (the bubble's clock
+				// starts at midnight sharp)
+				time.Sleep(time.Duration(offset) * time.Millisecond)
 				fs3 := &fakeS3{t0: time.Now(), script: append([]string(nil), script...), latency: time.Duration(latency) * time.Millisecond, lat2: time.Duration(lat2) * time.Millisecond, occupied: h%4 == 1}
 				client := s3.New(s3.Options{Region: "us-east-1", HTTPClient: fs3,
 					Credentials:  credentials.NewStaticCredentialsProvider("AK", "SK", ""),
@@ -241,7 +245,18 @@ func traceBackup(t *testing.T, o opts) {
 				nput := 0
 				put := func() {
 					nput++
-					kdb.Put(su, "k", []byte(fmt.Sprintf("value-%d", nput)))
+					switch nput % 3 {
+					case 1:
+						// the file grows by several KiB ...
+						kdb.Put(su, "big", bytes.Repeat([]byte(fmt.Sprintf("bulk-%d-", nput)), 600))
+					case 2:
+						// ... and shrinks again: a backup taken now is shorter than the one before it
+						if kdb.Delete(su, "big") != nil {
+							kdb.Put(su, "k", []byte(fmt.Sprintf("value-%d", nput)))
+						}
+					default:
+						kdb.Put(su, "k", []byte(fmt.Sprintf("value-%d", nput)))
+					}
 					snapFile()
 				}
 				if race > 0 {
